@@ -494,6 +494,44 @@ fn sweep_small(sh: &Shared, tier: Tier) -> u64 {
 
 /// (1d) alpha ladder: all images of 1..=4 pixels over {three RGB values, black among them} x {alpha 0, 64, 128, 200, 255}: pixels that
 /// share their RGB and differ only in alpha, next to each other in scan order, over the three backgrounds.
+/// Logging switched on (`quantize` is instrumented: its arguments are formatted when a subscriber listens): every
+/// image of one or two pixels over the alpha ladder, on this thread under a subscriber that formats everything.
+fn sweep_logging(sh: &Shared) -> u64 {
+    let mut ladder: Vec<[u8; 4]> = vec![];
+    for rgb in [[200u8, 0, 0], [10, 90, 250], [0, 0, 0]] {
+        for a in [0u8, 128, 255] {
+            ladder.push([rgb[0], rgb[1], rgb[2], a]);
+        }
+    }
+    let mut n = 0u64;
+    crate::engine::logging::with_logging(|| {
+        let mut images: Vec<Vec<[u8; 4]>> = ladder.iter().map(|p| vec![*p]).collect();
+        for a in &ladder {
+            for b in &ladder {
+                images.push(vec![*a, *b]);
+            }
+        }
+        for pixels in images {
+            for size in [1usize, 2, 16] {
+                for dither in [false, true] {
+                    for bg in &BACKGROUNDS {
+                        let c = QCase { h: 1, w: pixels.len(), pixels: pixels.clone(), size, dither, bg: *bg, crop: false, transposed: false };
+                        n += 1;
+                        if let Err((kind, detail)) = eval_q(&c) {
+                            sh.add_ranked(format!("logging:quantize:{}", kind), c.rank(), || {
+                                let mut w = c.json();
+                                w["logging"] = json!(true);
+                                (format!("with a tracing subscriber listening: {}x{} image, requested {}, dither {}, bg {:?}: {}", c.h, c.w, c.size, c.dither, c.bg, detail), w)
+                            });
+                        }
+                    }
+                }
+            }
+        }
+    });
+    n
+}
+
 fn sweep_alpha(sh: &Shared) -> u64 {
     let mut ladder: Vec<[u8; 4]> = vec![];
     for rgb in [[200u8, 0, 0], [10, 90, 250], [0, 0, 0]] {
@@ -1004,7 +1042,7 @@ fn sweep_all(sh: &Shared, ctx: &Ctx) -> Sizes {
     if !live(sh) {
         return s;
     }
-    s.large_cases = sweep_large(sh) + sweep_alpha(sh);
+    s.large_cases = sweep_large(sh) + sweep_alpha(sh) + sweep_logging(sh);
     s.completed.push("1c-subsampled-images");
     s.completed.push("1d-alpha-ladder");
         sh.phase_secs.lock().unwrap().push(("1c-subsampled-images".to_string(), cpu_secs()));
@@ -1171,6 +1209,11 @@ pub fn run(ctx: &Ctx) -> Result<Report, String> {
 }
 
 pub fn replay(w: &Value) -> Result<(bool, String), String> {
+    if w["logging"] == json!(true) {
+        let mut w2 = w.clone();
+        w2["logging"] = json!(false);
+        return crate::engine::logging::with_logging(|| replay(&w2));
+    }
     match w["kind"].as_str() {
         Some("quantize") => {
             let c = QCase::from_json(w)?;
